@@ -86,6 +86,11 @@ def main():
                 results.append(r)
     os.makedirs(os.path.join(VERIF, "build"), exist_ok=True)
     json.dump(results, open(os.path.join(VERIF, "build", "mutants-result.json"), "w"), indent=1)
+    import time
+    head = subprocess.run(["git", "-C", "/repo", "rev-parse", "--short", "HEAD"], capture_output=True, text=True).stdout.strip()
+    with open(os.path.join(VERIF, "build", "sensitivity-log.jsonl"), "a") as f:
+        for r in results:
+            f.write(json.dumps({"name": r[0], "prop": r[1], "status": r[2], "detail": r[3], "tier": tier, "repo": head, "at": int(time.time())}) + "\n")
     missed = [r for r in results if r[2] == "MISSED"]
     print("%d runs: %d caught, %d missed, %d other" % (len(results), sum(r[2] == "CAUGHT" for r in results), len(missed),
                                                         sum(r[2] not in ("CAUGHT", "MISSED") for r in results)))
